@@ -82,13 +82,16 @@ def run(name, tier):
             r = sh([os.path.join(VERIF, "check"), pid, "--tier", tier], env=env)
             viol = [l for l in r.stdout.splitlines() if l.startswith("VIOLATION")]
             res[pid] = {"exit": r.returncode, "violations": viol[:3]}
+            if "--first" in sys.argv and r.returncode == 1 and viol:  # (a sweep: the first check that reports it is enough)
+                break
     caught = [p for p, v in res.items() if v["exit"] == 1 and v["violations"]]
     broken = [p for p, v in res.items() if v["exit"] not in (0, 1)]
     if broken:
         print(f"{name}: MACHINERY FAILURE in {broken}")
     if "--record" in sys.argv:  # remember in meta.json which checks report this change, and how
         m["caught_by"] = {p: [l.split("replay=")[-1].split("/")[-1].replace(".json", "") for l in res[p]["violations"]] for p in caught}
-        m["not_caught_by"] = [p for p in m["checks"] if p not in caught]
+        m["not_caught_by"] = [p for p in m["checks"] if p in res and p not in caught]
+        m["not_run"] = [p for p in m["checks"] if p not in res]
         m["ran"] = f"tools/seeded.py run {name} --tier {tier}: patch applied to a scratch worktree of /repo HEAD, ./check <id> with VERIF_REPO pointing at it"
         with open(os.path.join(VERIF, "seeded", name, "meta.json"), "w") as f:
             json.dump(m, f, indent=1)
